@@ -278,6 +278,7 @@ class Ctx:
         skip = tuple(getattr(self, "coqchk_skip", ()))  # bulk vm_compute certificates whose re-evaluation by coqchk exceeds the budget
         allm = [f.stem for f in sorted(self.build.glob("*props*.v")) if status.get(f.name)]
         mods = ["P." + m for m in allm if m not in skip]
+        mods += ["P." + m for m in getattr(self, "coqchk_extra", ()) if status.get(m + ".v")]  # dependencies re-checked on their own
         skipped = [m for m in allm if m in skip]
         if not mods:
             return
